@@ -15,6 +15,7 @@ for k in keys:
         print(f"{kk}: {r.status} {r.message} paths={r.paths} obligations={n} ok={ok} exec={r.time_exec:.2f}s solve={r.time_solve:.2f}s feas={r.feas_checks}")
         for o in r.obligations:
             good = (o.result == 'unsat') != o.must_be_sat and o.result in ('sat','unsat')
+            if not good and o.kind == 'cover_exit': continue
             if not good:
                 bad += 1
                 if r.status != 'ok' or bad > 8: continue
